@@ -102,6 +102,7 @@ def run_property(prop: str, tier: str) -> int:
 
     violations = []
     inconclusive = []
+    not_exhausted = []
     known_lines = []
     for r in results:
         v = r.get("verdict")
@@ -109,6 +110,8 @@ def run_property(prop: str, tier: str) -> int:
             violations.append(r)
         elif v in ("confirmed", "known"):
             pass
+        elif v == "not_exhausted":
+            not_exhausted.append(r)
         else:
             inconclusive.append(r)
         for k in r.get("known_findings", []):
@@ -123,6 +126,8 @@ def run_property(prop: str, tier: str) -> int:
             print(f"VIOLATION property={prop} replay={path}")
             n_viol += 1
         print(f"  obligation {r['id']}: {str(r.get('detail',''))[:400]}")
+    for r in not_exhausted:
+        print(f"NOT-EXHAUSTED property={prop} obligation={r['id']} (deepening obligation; its bound is not claimed): {str(r.get('detail',''))[:200]}")
     for r in inconclusive:
         print(f"INCONCLUSIVE property={prop} obligation={r['id']}: {str(r.get('detail',''))[:600]}")
 
@@ -135,7 +140,7 @@ def run_property(prop: str, tier: str) -> int:
     confirmed = sum(1 for r in results if r.get("verdict") in ("confirmed", "known"))
     print(
         f"{prop} [{tier}] obligations={len(results)} confirmed={confirmed} violated={len(violations)} "
-        f"inconclusive={len(inconclusive)} wall={wall:.1f}s"
+        f"inconclusive={len(inconclusive)} not_exhausted_optional={len(not_exhausted)} wall={wall:.1f}s"
     )
     if violations:
         return 1
@@ -189,6 +194,7 @@ def build_evidence(prop, tier, seed, meta, results, n_viol, wall):
             "samples": samples,
             "obligations": len(results),
             "discharged": len(confirmed),
+            "deepening_not_exhausted": [r["id"] for r in results if r.get("verdict") == "not_exhausted"],
             "paths_explored": paths,
             "smt_queries": queries,
             "solver_seconds": solver_s,
